@@ -44,6 +44,9 @@ class RemoveTrait(Contract):
             return k(VBool(z3.Bool("companion_removed")), log(st, ("remove_trait", a[0], snap)))
         method("remove_trait", recursive)
         cx.elem_attrs["__dict__"] = lambda I2, o, st, k: k(st.ghost["dict_ref"], st)
+        # the class-level trait dictionary (declared traits AND cached wildcard resolutions): arbitrary contents
+        cx.elem_attrs["__class_traits__"] = lambda I2, o, st, k: k(st.ghost["class_traits_ref"], st)
+        cx.elem_attrs["__base_traits__"] = lambda I2, o, st, k: k(st.ghost["class_traits_ref"], st)
         handler = z3.Const("handler", Val)
         self.handler = handler
         cx.elem_attrs["handler"] = lambda I2, o, st, k: k(NONE if ov == "no-handler" else VElem(handler), st)
@@ -56,7 +59,9 @@ class RemoveTrait(Contract):
         self.IT0, self.D0 = z3.Const("instance_traits", MapV), z3.Const("instance_dict", MapV)
         itref, dref = VRef(cx.new_oid()), VRef(cx.new_oid())
         st = St().put(itref.oid, HObj("dict", self.IT0)).put(dref.oid, HObj("dict", self.D0))
-        st = st.gset("itraits_ref", itref).gset("dict_ref", dref)
+        ctref = VRef(cx.new_oid())
+        st = st.put(ctref.oid, HObj("dict", z3.Const("class_traits", MapV)))
+        st = st.gset("itraits_ref", itref).gset("dict_ref", dref).gset("class_traits_ref", ctref)
         st = st.assume(self.trait != NONE_T, self.handler != NONE_T)
         self_ref = VElem(z3.Const("self_object", Val))
         return st, [self_ref, VStr(self.name)], {}, dict(itref=itref, dref=dref, witness={"instance trait present": self.IT0[cx.box_str(self.name)] != Opt.none})
